@@ -525,7 +525,7 @@ def ladder(skel, tier, reduced=False):
         for ch in range(c):
             out.append(["chain", ch, "a'"])
         for r in range(k):
-            out += [["res_name", r, 'X"Y'], ["res_id", r, -3], ["ins", r, "A"], ["hetero", r, 1]]
+            out += [["res_name", r, 'X"Y'], ["res_id", r, -3], ["res_id", r, 128], ["ins", r, "A"], ["hetero", r, 1]]
         starts = [sum(sizes[:r]) for r in range(k)]
         for a in starts:
             out += [["atom_name", a, "O5'"], ["atom_name", a, 'C"1'], ["element", a, ""]]
@@ -538,7 +538,10 @@ def ladder(skel, tier, reduced=False):
         out += [["chain", ch, v] for v in (["AB", "a'"] + (['"q', "x y"] if full else []))]
     for r in range(k):
         out += [["res_name", r, v] for v in (["LIG", 'X"Y', "A B"] + (["ABCDEFGH"] if full else []))]
-        out += [["res_id", r, v] for v in ([0, -3, 10000] + ([-1, 2147483647] if full else []))]
+        # 128 / 32768: first value beyond a signed integer type - together with a negative id elsewhere
+        # the compressed BinaryCIF column needs a signed type that must still hold it
+        out += [["res_id", r, v] for v in ([0, -3, 10000, 128, 32768] +
+                                           ([-1, 2147483647, 127, -128, -129, 32767, -32768, -32769] if full else []))]
         out += [["ins", r, v] for v in (["A"] + (["'"] if full else []))]
         out.append(["hetero", r, 1])
     for a in range(n):
@@ -566,7 +569,10 @@ def dev_class(dev):
                "O5'": "prime", 'C"1': "dquote", "N 1": "space", "_X": "leading_underscore", "'A'": "squoted", "O' 1": "prime_space", 'C" 1': "dquote_space",
                "FE": "two_chars"}.get(v, "other")
     elif f == "res_id":
-        lab = {0: "zero", -3: "negative", 10000: "five_digits", -1: "minus_one", 2147483647: "int32_max"}.get(v, "other")
+        lab = {0: "zero", -3: "negative", 10000: "five_digits", -1: "minus_one", 2147483647: "int32_max",
+               128: "int8_max_plus_1", 32768: "int16_max_plus_1", 127: "int8_max", -128: "int8_min",
+               -129: "int8_min_minus_1", 32767: "int16_max", -32768: "int16_min",
+               -32769: "int16_min_minus_1"}.get(v, "other")
     else:
         lab = str(v)
     return "%s:%s" % (f, lab)
